@@ -223,7 +223,8 @@ fn check_mm_t<T: MmEl>(c: &MmCase) -> CheckResult {
         .class_if(tie, "tie-for-extremum")
         .class_if(c.shape.is_empty(), "0-D")
         .class_if(matches!(c.own, Own::Shared | Own::CowBorrowed | Own::CowOwned | Own::OwnedF), "ownership:non-plain")
-        .class_if(c.static_dim, "static-dim"))
+        .class_if(c.static_dim, "static-dim")
+        .class_if(total > 1024, "more-than-1024-elements"))
 }
 
 pub fn check_mm(c: &MmCase) -> CheckResult {
@@ -289,7 +290,14 @@ fn mm_strategy() -> impl Strategy<Value = MmCase> {
                 3 => 5,
                 _ => 4,
             };
-            (Just(ty), shape_strategy(nd, max_axis, 200, zroll == 0), layout_strategy(nd))
+            let big: BoxedStrategy<Vec<usize>> = match nd {
+                1 => (1000usize..3000).prop_map(|n| vec![n]).boxed(),
+                2 => (2usize..7, 200usize..700).prop_map(|(a, b)| vec![a, b]).boxed(),
+                3 => (2usize..4, 20usize..40, 20usize..40).prop_map(|(a, b, c)| vec![a, b, c]).boxed(),
+                _ => shape_strategy(nd, max_axis, 200, false),
+            };
+            let shape = if zroll == 9 && nd >= 1 && nd <= 3 { big } else { shape_strategy(nd, max_axis, 200, zroll == 0) };
+            (Just(ty), shape, layout_strategy(nd))
         })
         .prop_flat_map(|(ty, shape, layout)| {
             let total: usize = shape.iter().product();
